@@ -671,6 +671,15 @@ def std_trait(engine, st, ty, tyb, tb, method, args, dest_ty, trait=None):
             raise Inconclusive(f'structural equality of {a!r} and {b!r}')
         t = zs(veq(deref_all(args[0]), deref_all(args[1])))
         return BV(t if method == 'eq' else zs(z3.Not(t)))
+    if tyb == 'Arc' and tb == 'PartialEq' and method in ('eq', 'ne'):
+        # Arc<T>: PartialEq delegates to T (for Actor that is address identity, std::ptr::eq)
+        inner = re.sub(r'^(std::sync::)?Arc<(.*)>$', r'\2', ty.strip())
+        fns = engine.prog.find_method(base_type(inner), 'eq', trait='PartialEq')
+        if len(fns) == 1:
+            a, b = deref_all(args[0]), deref_all(args[1])
+            if isinstance(a, ArcV) and isinstance(b, ArcV):
+                r = engine.exec_fn(st, fns[0], [RefV(a.cell, 0), RefV(b.cell, 0)])
+                return r if method == 'eq' else BV(zs(z3.Not(r.t)))
     if tyb == 'Option' and tb == 'PartialOrd' and method in ('lt', 'le', 'gt', 'ge'):
         # derived order of Option: None < Some(_); Some compared by payload (integers only here)
         a, b = option_arg(args[0]), option_arg(args[1])
@@ -1083,6 +1092,11 @@ def std_path(engine, st, name, args, dest_ty):
     if 'box_assume_init_into_vec_unsafe' in name:
         arr = args[0].cell.v if isinstance(args[0], ArcV) else deref_all(args[0])
         return VecV(list(arr.fields))
+    if name in ('std::ptr::eq', 'core::ptr::eq', 'ptr::eq'):
+        ca, cb = _identity_cell(args[0]), _identity_cell(args[1])
+        if ca is None or cb is None:
+            raise Inconclusive('ptr::eq on values without a heap identity')
+        return BV(ca is cb)
     if name.endswith('Arc::ptr_eq'):
         a, b = deref_all(args[0]), deref_all(args[1])
         if isinstance(a, ArcV) and isinstance(b, ArcV):
